@@ -220,3 +220,83 @@ pub fn fuzz_case(seed: u64, max_stims: usize, allow_ill: bool) -> (Case, Run) {
   }
   (case, run)
 }
+
+
+/// long random call sequences on a subject (C10) or a connectable over a hot source (C13): the enumerated groups stop at 4-8
+/// stimuli; these go to 24 (history buffers, serial counters and slices only show above that)
+pub fn fuzz_hot_case(seed: u64) -> (Case, Run) {
+  let mut r = Rng(seed.wrapping_mul(0x9E3779B97F4A7C15) | 1);
+  let mk = |k: &str, a: i64, b: i64, v: i64, e: &str| Stim { st: St { k: k.into(), a, b, v, e: e.into() }, obs: vec![], fin: String::new(), cnt: vec![], site: String::new() };
+  let subject = r.below(2) == 0;
+  let (root, cfg) = if subject {
+    let kind = *r.pick(&["plain", "behavior", "replay", "async"]);
+    let s = Term::leaf("subject", 1);
+    let root = if r.below(3) == 0 { Term::un("map", 1, "inc", s) } else { s };
+    (root, Cfg { react: React::default(), sbj: vec![kind.into()], conn: vec![] })
+  } else {
+    let kind = *r.pick(&["publish", "ref_count", "replay"]);
+    (Term::leaf("conn", 1), Cfg { react: React::default(), sbj: vec!["plain".into()], conn: vec![ConnCfg { kind: kind.into(), term: Term::leaf("probe", 1) }] })
+  };
+  let publish = cfg.conn.first().map(|c| c.kind == "publish").unwrap_or(false);
+  let mut case = Case { root, cfg, rev: r.below(2) == 0, stims: vec![], leak1: None, l2: None };
+  let mut len = 8 + r.below(17) as usize;
+  // one case in three starts with a long run of items (17-20) before the late subscribers come: history buffers beyond 16 items
+  if r.below(3) == 0 {
+    if !subject || r.below(2) == 0 {
+      case.stims.push(mk("sub", 1, 0, 0, ""));
+    }
+    if publish {
+      case.stims.push(mk("connect", 1, 0, 0, ""));
+    }
+    let burst = 17 + r.below(4) as usize;
+    for _ in 0..burst {
+      if subject {
+        case.stims.push(mk("subj", 1, 0, r.below(3) as i64, "n"));
+      } else {
+        case.stims.push(mk("emit", 1, 1, r.below(3) as i64, "n"));
+      }
+    }
+    len += case.stims.len();
+  }
+  let mut run = run_case(&case);
+  let mut connected = publish && case.stims.iter().any(|s| s.st.k == "connect");
+  while case.stims.len() < len && run.stims.len() == case.stims.len() && run.stims.iter().all(|s| s.fin == "ok") {
+    let n_subs = case.stims.iter().filter(|s| s.st.k == "sub").count() as i64;
+    let mut regs: Vec<(i64, i64)> = vec![];
+    for s in &run.stims {
+      for o in &s.obs {
+        if o.o == "probe" && o.k == "subscribed" && o.u == 1 {
+          regs.push((o.u, o.v));
+        }
+      }
+    }
+    let c = r.below(12);
+    let st = if c < 2 && n_subs < 3 {
+      mk("sub", n_subs + 1, 0, 0, "")
+    } else if c == 2 && n_subs > 0 {
+      mk("unsub", 1 + r.below(n_subs as u64) as i64, 0, 0, "")
+    } else if subject {
+      match r.below(14) {
+        0 => mk("subj", 1, 0, 0, "c"),
+        1 => mk("subj", 1, 0, 5, "e"),
+        _ => mk("subj", 1, 0, r.below(3) as i64, "n"),
+      }
+    } else if publish && c == 3 {
+      connected = !connected;
+      mk(if connected { "connect" } else { "disconnect" }, 1, 0, 0, "")
+    } else if let Some((i, inst)) = regs.last().cloned() {
+      match r.below(14) {
+        0 => mk("emit", i, inst, 0, "c"),
+        1 => mk("emit", i, inst, 5, "e"),
+        _ => mk("emit", i, inst, r.below(3) as i64, "n"),
+      }
+    } else if n_subs < 3 {
+      mk("sub", n_subs + 1, 0, 0, "")
+    } else {
+      mk("query", 1, 0, 0, "")
+    };
+    case.stims.push(st);
+    run = run_case(&case);
+  }
+  (case, run)
+}
